@@ -31,6 +31,7 @@ type Global struct {
 	cha      map[string][]*ssa.Function
 	protects []protectDecl
 	inherited map[*ssa.Function]*FuncContract
+	fileLines map[string][]string
 }
 
 func fullTypeKey(t types.Type) string {
@@ -94,7 +95,7 @@ func newGlobal(prog *ssa.Program, pkgs []*packages.Package, cs *Contracts) *Glob
 	g := &Global{prog: prog, pkgs: pkgs, cs: cs, spkgs: map[string]*ssa.Package{},
 		funcKey: map[*ssa.Function]string{}, keyFunc: map[string]*ssa.Function{},
 		tags: map[string]int{}, escField: map[string]bool{}, modsets: map[*ssa.Function]*ModSet{},
-		typeinvs: map[string][]PkgDecl{}, ghostFields: map[string]map[string]string{}, globalIdx: map[*ssa.Global]int{}, compKT: map[string]compKT{}, inherited: map[*ssa.Function]*FuncContract{}}
+		typeinvs: map[string][]PkgDecl{}, ghostFields: map[string]map[string]string{}, globalIdx: map[*ssa.Global]int{}, compKT: map[string]compKT{}, inherited: map[*ssa.Function]*FuncContract{}, fileLines: map[string][]string{}}
 	for _, p := range prog.AllPackages() {
 		g.spkgs[p.Pkg.Path()] = p
 	}
